@@ -57,8 +57,9 @@ def _iov(pid, title, theorems, modules, vtags, obs, text, partial=""):
     )
 
 _iov("C03", "OwningIovec is a faithful FIFO byte pipe",
-     ["Woodpile.Props.C03.op_refines_partial", "Woodpile.Props.C03.reachable_refines_partial",
-      "Woodpile.Props.C03.no_empty_slice", "Woodpile.Props.C03.size_eq"],
+     ["Woodpile.Props.C03.op_refines", "Woodpile.Props.C03.reachable_refines", "Woodpile.Props.C03.fifo",
+      "Woodpile.Props.C03.size_eq", "Woodpile.Props.C03.consume_reports", "Woodpile.Props.C03.consume_exact",
+      "Woodpile.Props.C03.no_empty_slice", "Woodpile.Props.C03.no_panic_valid", "Woodpile.Props.C03.bad_token_panics"],
      ["Woodpile.Props.C03"], ["C03"], ["A", "R"],
      "Kernel-checked refinement of the structural OwningIovec model to an abstract byte pipe (theorem list in tools/specs.py); "
      "correspondence of the model with the real crate over random histories of the full producer/consumer API; shadow-buffer oracle.")
